@@ -128,6 +128,8 @@ class ProgGen:
             un = node if node != "app" else "A"
             if kind == "q":
                 s.update(x=self.mag(), u=self.unit_str(un))
+                if rng.random() < 0.15:
+                    s["pow"] = rng.choice(["1/3", "2/3", "1/5", "1/2"])  # exponents a float cannot always represent
             elif kind == "u":
                 s.update(u=self.unit_str(un))
             elif kind == "m":
@@ -163,10 +165,19 @@ class ProgGen:
         if r < 0.86:
             self.ndef += 1
             node = rng.choice([n for n in self.nodes if n in ("A", "B")])
-            op = rng.choice(["define", "define", "ctx_on", "ctx_off", "system", "new_group", "group_add"])
+            op = rng.choice(["define", "define", "define_prefix", "define_alias", "ctx_on", "ctx_off", "system", "new_group",
+                             "group_add"])
             s = {"id": sid, "k": "evolve", "node": node, "op": op}
             if op == "define":
                 s["line"] = f"xq{self.ndef}z = {rng.choice(['2', '0.5', '7'])} * meter"
+            elif op == "define_prefix":
+                s["op"] = "define"
+                s["line"] = f"zp{self.ndef}q- = 1e{rng.choice([2, 4, -2])}"
+                s["probe"] = ["conv", "1", f"zp{self.ndef}qmeter", "meter"]
+            elif op == "define_alias":
+                s["op"] = "define"
+                s["line"] = f"@alias meter = za{self.ndef}q"
+                s["probe"] = ["conv", "1", f"za{self.ndef}q", "inch"]
             elif op == "system":
                 s["name"] = rng.choice(["SI", "cgs", "imperial", "mks"])
             elif op == "new_group":
@@ -204,7 +215,8 @@ class RegistriesWorld:
         pg = ProgGen(streams.get("program"))
         size = kr.choice([6, 10, 14, 20, 25])
         program = [pg.step() for _ in range(size)]
-        return {"world": "registries", "prop": self.prop, "knobs": {}, "program": program,
+        return {"world": "registries", "prop": self.prop, "knobs": {"numtype": kr.choice(["float", "float", "Fraction", "Decimal"])},
+                "program": program,
                 "faults": {"seed": 0, "rates": {}, "off": []}}
 
     def run_case(self, case, col, log=None):
@@ -284,6 +296,9 @@ class _Run:
         self.app_node = "L"
         self.lazy_touched = False
         self.cur = 0
+        # questions about things defined during the run (new prefixes, aliases); known from the start so that
+        # every node is asked the same list at all times
+        self.extra_battery = [s["probe"] for s in case["program"] if s.get("probe")]
 
     # ------------------------------------------------------------ nodes
     def reg(self, node):
@@ -293,16 +308,20 @@ class _Run:
             return self.pint._DEFAULT_REGISTRY
         return self.nodes[node]
 
+    def new_registry(self):
+        T = {"float": float, "Fraction": Fraction, "Decimal": Decimal}[self.case.get("knobs", {}).get("numtype", "float")]
+        return self.pint.UnitRegistry(non_int_type=T)
+
     def ensure_A(self):
         if "A" not in self.nodes:
-            self.nodes["A"] = self.pint.UnitRegistry()
+            self.nodes["A"] = self.new_registry()
             self.extras["A"] = set()
             self.ops["A"] = []
             self.pristine_battery = self.battery(self.pint.UnitRegistry())
             self.remember("A")
 
     def battery(self, ureg):
-        return [ask(ureg, q, num) for q in BATTERY]
+        return [ask(ureg, q, num) for q in BATTERY + self.extra_battery]
 
     def remember(self, node):
         self.battery_mem[node] = self.battery(self.reg(node))
@@ -315,7 +334,7 @@ class _Run:
             now = self.battery(self.reg(node))
             self.col.checks += 1
             if node in self.battery_mem and now != self.battery_mem[node]:
-                diff = [[BATTERY[i], a, b] for i, (a, b) in enumerate(zip(self.battery_mem[node], now)) if a != b]
+                diff = [[(BATTERY + self.extra_battery)[i], a, b] for i, (a, b) in enumerate(zip(self.battery_mem[node], now)) if a != b]
                 raise Violation("C18.isolation", self.cur, {"acting_node": acting, "changed_node": node, "changes": diff[:4]})
         if acting in self.nodes or (acting == "L" and self.lazy_touched):
             self.remember(acting)
@@ -323,7 +342,7 @@ class _Run:
             a, b = self.battery(self.nodes["B"]), self.battery(self.shadow)
             self.col.checks += 1
             if a != b:
-                diff = [[BATTERY[i], x, y] for i, (x, y) in enumerate(zip(a, b)) if x != y]
+                diff = [[(BATTERY + self.extra_battery)[i], x, y] for i, (x, y) in enumerate(zip(a, b)) if x != y]
                 raise Violation("C18.copy-vs-built", self.cur, {"copy_answers_vs_separately_built": diff[:4],
                                                                 "operations": self.ops["B"]})
 
@@ -340,6 +359,8 @@ class _Run:
         try:
             if kind == "q":
                 obj = (pint.Quantity if node == "app" else ureg.Quantity)(make_mag(s["x"]), s["u"])
+                if s.get("pow") and s["x"]["t"] in ("int", "float") and float(s["x"]["v"]) > 0:
+                    obj = obj ** Fraction(s["pow"])
             elif kind == "u":
                 obj = (pint.Unit if node == "app" else ureg.Unit)(s["u"])
             elif kind == "m":
@@ -463,7 +484,7 @@ class _Run:
         self.ensure_A()
         self.col.checks += 1
         if now != self.pristine_battery:
-            diff = [[BATTERY[i], a, b] for i, (a, b) in enumerate(zip(self.pristine_battery, now)) if a != b]
+            diff = [[(BATTERY + self.extra_battery)[i], a, b] for i, (a, b) in enumerate(zip(self.pristine_battery, now)) if a != b]
             raise Violation("C18.lazy", self.cur, {"why": why, "explicit_vs_lazy": diff[:4]})
         if not isinstance(L, self.pint.UnitRegistry):
             raise Violation("C18.lazy", self.cur, {"why": why, "class": type(L).__name__})
@@ -568,7 +589,7 @@ class _Run:
         self.extras["B"] = set(self.extras["A"])
         self.ops["B"] = list(self.ops["A"])
         # the same declarative state, built separately
-        self.shadow = self.pint.UnitRegistry()
+        self.shadow = self.new_registry()
         for op in self.ops["B"]:
             self.apply(self.shadow, op)
         self.remember("B")
@@ -577,7 +598,7 @@ class _Run:
         return "ok"
 
     def do_new_registry_C(self, s):
-        c = self.pint.UnitRegistry()
+        c = self.new_registry()
         for line in EXTRA_DEFS:
             c.define(line)
         self.nodes["C"] = c
@@ -638,8 +659,8 @@ class _Run:
         op = {"add": operator.add, "sub": operator.sub, "mul": operator.mul, "div": operator.truediv, "lt": operator.lt,
               "ge": operator.ge, "le": operator.le, "gt": operator.gt}[s["op"]]
         same = a["obj"]._REGISTRY is b["obj"]._REGISTRY
-        if s["op"] in ("lt", "ge", "le", "gt") and (a["kind"] == "m" or b["kind"] == "m"):
-            return "n/a"  # ordering is defined for quantities and units
+        if s["op"] in ("lt", "ge", "le", "gt") and (a["kind"] != b["kind"] or a["kind"] == "m"):
+            return "n/a"  # ordering is asked between two quantities or between two units
         if s["op"] in ("add", "sub") and (a["kind"] == "u" or b["kind"] == "u"):
             return "n/a"
         try:
